@@ -52,11 +52,11 @@ let guard_case t =
         List.iter2 (fun o s -> if c19_script act o <> s then failwith "SCRIPT-MISMATCH") os sc;
         let nsec = (match os with o :: _ -> List.length o | [] -> 0) in
         List.iteri (fun i r -> let (e, n) = c19_spec_exit act (nat_of_int nsec) os (nat_of_int i) in
-                     spec.(r) <- obs_str i (Some e, n)) members;
+                     spec.(r) <- obs_str (if t.(2) = "R" then List.length members - 1 - i else i) (Some e, n)) members;
         c19_sections_run act os
       end else c19_guard_scope_ctor (ctor_arg t.(2) act) (List.map (fun r -> script_as_called scripts.(r)) members) in
     (match r with
-     | C19_Finished l | C19_Deadlock l -> List.iteri (fun i (r, o) -> res.(r) <- obs_str i o) (List.combine members l)
+     | C19_Finished l | C19_Deadlock l -> List.iteri (fun i (r, o) -> res.(r) <- obs_str (if t.(2) = "R" then List.length members - 1 - i else i) o) (List.combine members l)
      | C19_OutOfFuel -> List.iter (fun r -> res.(r) <- "OUTOFFUEL") members)) (groups_of colors p);
   String.concat "|" (Array.to_list res) ^ " ## " ^ (if mode = "S" then String.concat "|" (Array.to_list spec) else "-")
 
@@ -75,9 +75,9 @@ let seq_case t =
       let (a, os) = List.nth scopes j in
       let nsec = (match os with o :: _ -> List.length o | [] -> 0) in
       (match g with
-       | C19_Finished l | C19_Deadlock l -> List.iteri (fun i (r, o) -> res.(r).(j) <- obs_str i o) (List.combine members l)
+       | C19_Finished l | C19_Deadlock l -> List.iteri (fun i (r, o) -> res.(r).(j) <- obs_str (if t.(2) = "R" then List.length members - 1 - i else i) o) (List.combine members l)
        | C19_OutOfFuel -> List.iter (fun r -> res.(r).(j) <- "OUTOFFUEL") members);
-      List.iteri (fun i r -> let (e, n) = c19_spec_exit a (nat_of_int nsec) os (nat_of_int i) in spec.(r).(j) <- obs_str i (Some e, n)) members) rs)
+      List.iteri (fun i r -> let (e, n) = c19_spec_exit a (nat_of_int nsec) os (nat_of_int i) in spec.(r).(j) <- obs_str (if t.(2) = "R" then List.length members - 1 - i else i) (Some e, n)) members) rs)
     (groups_of colors p);
   let row a = String.concat ";" (Array.to_list a) in
   String.concat "|" (List.map row (Array.to_list res)) ^ " ## " ^ String.concat "|" (List.map row (Array.to_list spec))
@@ -137,68 +137,119 @@ let parse_item sv s =
 let rec take n l = if n = 0 then [] else match l with [] -> [] | x :: r -> x :: take (n - 1) r
 let rec drop n l = if n = 0 then l else match l with [] -> [] | _ :: r -> drop (n - 1) r
 
+(* call orders: v r w g m a d as in the model; driver-level compositions of modelled steps:
+     M / A  = move-construct / move-assign into a fresh object and call ready() on the TARGET (same state: a Ready step)
+     S      = self move assignment (no step: the state must be unchanged)
+     n      = the object receives a new operation: the order is cut into segments, each a fresh future *)
+let rec split_at_n = function
+  | [] -> [[]]
+  | 'n' :: r -> [] :: split_at_n r
+  | c :: r -> (match split_at_n r with h :: t -> (c :: h) :: t | [] -> [[c]])
+let model_char = function 'M' | 'A' -> 'r' | c -> c
+let relabel seg toks =
+  let rec go seg toks = match seg, toks with
+    | [], _ -> []
+    | 'S' :: r, _ -> "S." :: go r toks
+    | (('M' | 'A') as c) :: r, t :: ts -> (String.make 1 c ^ String.sub t 1 (String.length t - 1)) :: go r ts
+    | _ :: r, t :: ts -> t :: go r ts
+    | _ :: r, [] -> go r [] in
+  String.concat " " (go seg toks)
+let rec product = function
+  | [] -> [""]
+  | [s] -> s
+  | s :: rest -> List.concat_map (fun a -> List.map (fun b -> a ^ " n. " ^ b) (product rest)) s
+
 let future_case t impl_line =
   let p = int_of_string t.(1) and fam = t.(2) and op = t.(3) and pay = t.(4) and salt = int_of_string t.(6)
   and late = int_of_string t.(7) and dep = t.(8) and order = chars t.(9) in
-  let ops = List.map fop_of_char order in
-  let nops = List.length ops in
-  let len = (match pay with "i" | "j" -> 1 | "v" | "w" | "q" | "F" -> 3 | "L" -> 3000 | _ -> 0) in
-  let kind = (match pay with "i" | "v" | "q" | "F" | "L" -> C19_BValue | "j" | "w" -> C19_BRef | _ -> C19_BVoid) in
-  let erased = t.(5) = "e" in
-  let rec prefix = function ('w' | 'g' | 'd') :: _ -> 0 | _ :: r -> 1 + prefix r | [] -> 0 in
+  let segs = split_at_n order in
+  let len = (match pay with "i" | "j" | "l" -> 1 | "v" | "w" | "q" | "F" | "s" -> 3 | "L" -> 3000 | _ -> 0) in
+  let kind = (match pay with "i" | "v" | "q" | "F" | "L" | "l" | "s" | "e" -> C19_BValue | "j" | "w" -> C19_BRef | _ -> C19_BVoid) in
+  let erased = t.(5) = "e" || t.(5) = "c" in
+  let mpi = fam <> "N" in
+  let rec prefix = function ('w' | 'g' | 'd' | 'n') :: _ -> 0 | _ :: r -> 1 + prefix r | [] -> 0 in
   let start_exc = (match op with "default" | "mkvalid" | "efuture" -> false
-                            | _ -> c19_start_rejected (if fam = "N" then C19_FamSeq else C19_FamMPI) (nbop_of_string op) (nat_of_int (if pay = "z" then 0 else max len 1))) in
+                            | _ -> c19_start_rejected (if mpi then C19_FamMPI else C19_FamSeq) (nbop_of_string op) (nat_of_int (if pay = "z" then 0 else max len 1))) in
   let k = prefix order in
   let impl_ranks = (match impl_line with Some l -> Array.of_list (List.map String.trim (split '|' l)) | None -> [||]) in
+  (* r = rank inside the communicator of the operation; fam R: the communicator orders the processes in reverse *)
+  let world_of r = if fam = "R" then p - 1 - r else r in
   let per_rank r =
-    (* communicator seen by the operation: fam M = all P processes, fam N = this process alone *)
-    let pe, re = if fam = "M" then p, r else 1, 0 in
+    let pe, re = if mpi then p, r else 1, 0 in
     let root = salt mod pe in
-    let mk w n = List.init n (fun i -> n_of_int (1000 * (w + 1) + 10 * salt + i)) in
-    let world q = if fam = "M" then q else r in
-    let ins = List.init pe (fun q -> if op = "iscatter" then (if q = root then mk (world q) (pe * len) else []) else mk (world q) len) in
-    let outs = List.init pe (fun q -> [n_of_int (9000 + world q)]) in
+    let mk w n = List.init n (fun i -> let x = 1000 * (w + 1) + 10 * salt + i in n_of_int (if pay = "s" then 97 + x mod 26 else x)) in
+    let me q = if mpi then q else r in
+    let ins = List.init pe (fun q -> if op = "iscatter" then (if q = root then mk (me q) (pe * len) else []) else mk (me q) len) in
+    let outs = List.init pe (fun q -> [n_of_int (9000 + me q)]) in
     let v = if op = "mkvalid" then (if pay = "i" then "[0]" else "[]")
             else data_str (c19_spec_data (nbop_of_string op) (nat_of_int pe) (nat_of_int root) (nat_of_int re) ins outs) in
     let sv = data_str (List.nth ins re) in
     let is_dep = late >= 0 && r < String.length dep && dep.[r] = '1' in
-    let traces =
-      if op = "efuture" then [c19_etrace c19_cfg_fixed kind v (List.map (fun o -> C19_EvOp o) ops) None]   (* empty Dune::Future<T> *)
-      else if fam = "N" then [c19_ptrace ops { c19_pvalid = (op <> "default"); c19_pdata = v }]
-      else if op = "default" || op = "mkvalid" then begin
-        let f = c19_fut_ctor (if op = "default" then None else Some true) v in
-        let h = List.map (fun o -> C19_EvOp o) ops in
-        [if erased then c19_etrace c19_cfg_fixed kind v h (Some f) else c19_ftrace c19_cfg_fixed kind v h f] end
-      else List.filter_map (fun c -> if is_dep && c < k then None
-                             else let h = c19_history ops (nat_of_int c) and f = c19_fut_started "[stale]" in
-                               Some (if erased then c19_etrace c19_cfg_fixed kind v h (Some f) else c19_ftrace c19_cfg_fixed kind v h f))
-             (List.init (nops + 2) (fun c -> c)) in
-    (* type-erased wrapper around a PseudoFuture: the wrapper (unique_ptr) is what is moved, its source is emptied *)
-    let traces = if erased && fam = "N" && op <> "efuture" then List.map (List.map (function C19_TOp ((C19_Move | C19_MoveAssign) as o, C19_RBool _) -> C19_TOp (o, C19_RBool false) | x -> x)) traces else traces in
-    let set = if start_exc then ["START-EXC(ParallelError)"] else List.sort_uniq compare (List.map (trace_str sv) traces) in
+    let seg_traces j seg =
+      let ops = List.map (fun c -> fop_of_char (model_char c)) (List.filter (fun c -> c <> 'S') seg) in
+      let nops = List.length ops in
+      let first = j = 0 in
+      (* a renewed object is what the same call returns again: for default / mkvalid / efuture the same kind of object *)
+      let traces =
+        if op = "efuture" then [c19_etrace c19_cfg_fixed kind v (List.map (fun o -> C19_EvOp o) ops) None]   (* empty Dune::Future<T> *)
+        else if not mpi then [c19_ptrace ops { c19_pvalid = (op <> "default"); c19_pdata = v }]
+        else if op = "default" || op = "mkvalid" then begin
+          let f = c19_fut_ctor (if op = "default" then None else Some true) v in
+          let h = List.map (fun o -> C19_EvOp o) ops in
+          [if erased then c19_etrace c19_cfg_fixed kind v h (Some f) else c19_ftrace c19_cfg_fixed kind v h f] end
+        else List.filter_map (fun c -> if first && is_dep && c < k then None
+                               else let h = c19_history ops (nat_of_int c) and f = c19_fut_started "[stale]" in
+                                 Some (if erased then c19_etrace c19_cfg_fixed kind v h (Some f) else c19_ftrace c19_cfg_fixed kind v h f))
+               (List.init (nops + 2) (fun c -> c)) in
+      (* type-erased wrapper around a PseudoFuture: the wrapper (unique_ptr) is what is moved, its source is emptied *)
+      let traces = if erased && not mpi && op <> "efuture" then List.map (List.map (function C19_TOp ((C19_Move | C19_MoveAssign) as o, C19_RBool _) -> C19_TOp (o, C19_RBool false) | x -> x)) traces else traces in
+      List.sort_uniq compare (List.map (fun tr -> relabel seg (List.filter (fun s -> s <> "") (List.map (item_str sv) tr))) traces) in
+    let set = if start_exc then ["START-EXC(ParallelError)"] else product (List.mapi seg_traces segs) in
+    let wr = world_of r in
     let verdict =
-      if r >= Array.length impl_ranks then None
-      else if start_exc then (if impl_ranks.(r) = "START-EXC(ParallelError)" then None else Some (Printf.sprintf "REJECT r%d fresh item0 start (ParallelError expected)" r))
+      if wr >= Array.length impl_ranks then None
+      else if start_exc then (if impl_ranks.(wr) = "START-EXC(ParallelError)" then None else Some (Printf.sprintf "REJECT r%d fresh item0 start (ParallelError expected)" wr))
       else begin
-        let toks = List.filter (fun s -> s <> "") (split ' ' impl_ranks.(r)) in
-        let items = List.map (parse_item sv) toks in
-        if List.exists (fun x -> x = None) items || List.length items <> nops then Some (Printf.sprintf "REJECT r%d unparsable-or-incomplete" r) else begin
-          let items = List.map (function Some x -> x | None -> assert false) items in
-          let en = if fam = "M" && is_dep then k else 0 in
-          let tr = take en items @ [C19_TEnable] @ drop en items in
-          let acc tr = c19_spec_accept (fun a b -> a = b) v (op = "default" || op = "efuture") false false tr in
-          if acc tr then None else begin
-            (* first offending item *)
-            let n = List.length tr in
-            let rec first i = if i > n then n else if not (acc (take i tr)) then i else first (i + 1) in
-            let i = first 1 in
-            let taken = List.exists (function C19_TOp (_, C19_RData _) -> true | _ -> false) (take (i - 1) tr) in
-            Some (Printf.sprintf "REJECT r%d %s item%d %s (delivered data %s)" r (if taken then "after-get" else "fresh") (i - 1) (item_str sv (List.nth tr (i - 1))) v)
-          end
+        let toks = List.filter (fun s -> s <> "") (split ' ' impl_ranks.(wr)) in
+        (* cut the impl's tokens at "n." *)
+        let rec cut = function [] -> [[]] | "n." :: r -> [] :: cut r | x :: r -> (match cut r with h :: t -> (x :: h) :: t | [] -> [[x]]) in
+        let isegs = cut toks in
+        if List.length isegs <> List.length segs then Some (Printf.sprintf "REJECT r%d unparsable-or-incomplete" wr) else begin
+          let check j seg itoks =
+            (* align tokens with the call order of the segment *)
+            let rec align seg itoks = match seg, itoks with
+              | [], [] -> Some []
+              | 'S' :: r, "S." :: ts -> align r ts
+              | 'S' :: _, _ -> None
+              | (('M' | 'A') as c) :: r, tk :: ts when String.length tk >= 2 && tk.[0] = c ->
+                (match parse_item sv ("r" ^ String.sub tk 1 (String.length tk - 1)), align r ts with Some it, Some l -> Some (it :: l) | _ -> None)
+              | ('M' | 'A') :: _, _ -> None
+              | c :: r, tk :: ts when String.length tk >= 1 && tk.[0] = c ->
+                (match parse_item sv tk, align r ts with Some it, Some l -> Some (it :: l) | _ -> None)
+              | _, _ -> None in
+            match align seg itoks with
+            | None -> Some (Printf.sprintf "REJECT r%d unparsable-or-incomplete" wr)
+            | Some items ->
+              let en = if j = 0 && mpi && is_dep then k else 0 in
+              let tr = take en items @ [C19_TEnable] @ drop en items in
+              let taken0 = op = "default" || op = "efuture" in
+              let acc tr = c19_spec_accept (fun a b -> a = b) v taken0 false false tr in
+              if acc tr then None else begin
+                let n = List.length tr in
+                let rec first i = if i > n then n else if not (acc (take i tr)) then i else first (i + 1) in
+                let i = first 1 in
+                let taken = List.exists (function C19_TOp (_, C19_RData _) -> true | _ -> false) (take (i - 1) tr) in
+                Some (Printf.sprintf "REJECT r%d %s item%d %s (delivered data %s)" wr (if taken then "after-get" else "fresh") (i - 1) (item_str sv (List.nth tr (i - 1))) v)
+              end in
+          let rec all j segs isegs = match segs, isegs with
+            | s :: sr, i :: ir -> (match check j s i with Some x -> Some x | None -> all (j + 1) sr ir)
+            | _, _ -> None in
+          all 0 segs isegs
         end
       end in
     (String.concat " / " set, v, verdict) in
   let rs = List.init p per_rank in
+  let rs = if fam = "R" then List.rev rs else rs in      (* lines are in world-rank order *)
   let model = String.concat " | " (List.map (fun (s, _, _) -> s) rs) in
   let spec = (match impl_line with
       | None -> String.concat "|" (List.map (fun (_, v, _) -> v) rs)
@@ -215,7 +266,7 @@ let () =
     let out = (try (match t.(0) with
         | "G" -> guard_case t
         | "Q" -> seq_case t
-        | "N" -> nested_case t
+        | "N" | "O" -> nested_case t
         | "F" -> future_case t il
         | _ -> "UNKNOWN-CASE ## -")
       with Failure m -> "MODEL-ERROR " ^ m ^ " ## -" | Invalid_argument m -> "MODEL-ERROR " ^ m ^ " ## -") in
